@@ -1,0 +1,7 @@
+//go:build verif
+
+// Contracts for package core/types, read by /verif/gocv (comment-only file).
+package types
+
+//@ func (*Transaction).Hash
+//@   inline
